@@ -28,6 +28,17 @@ CHECKS = {
         "technique": "Lean 4 proof (accounting invariant by mutual structural induction, for all inputs) + differential run incl. Binary.unmarshal",
         "design_ref": "DESIGN.md §8 C02",
     },
+    "C03": {
+        "text": "The three detection points are theorems about the constraint machinery for ANY stack of regions: c03_anticipated (a size that cannot fit in the outermost "
+                "violated enclosing region is reported when read, naming that region's path/limit/count, the size field, its value and the excess), c03_exceeded (a field "
+                "that would cross a region's end is reported before it is consumed; only the rest of that region is taken), c03_subceeded / c03_exact_ok (end check), and "
+                "decode_ok gives the positive direction (exact sizes are accepted, for every layout). 'Accepts only if exact' and the error details over whole nested "
+                "messages are enforced by the monitor on every size field of generated messages (value-k/+k/0/max): accepted => every size field equals the bytes it "
+                "governs; rejected => limit, counted bytes, violator, excess and the preceding events are re-derived from the events and checked; model tied by correspondence. "
+                "The refinement of the counter machine to an offset-based region spec over whole messages is not proved yet.",
+        "technique": "Lean 4 proofs (constraint-stack lemmas by induction over the region list) + size-fault enumeration monitor",
+        "design_ref": "DESIGN.md §8 C03",
+    },
     "C04": {
         "text": "Per field: c04_prim_reject / c04_prim_accept (a primitive inside regions with room raises the value error naming path/type/integer with no event "
                 "exactly when the integer is outside the declared set, otherwise emits one event) and C16.c16_valid_iff (validity = membership in the declared set for "
@@ -69,6 +80,14 @@ CHECKS = {
                 "and tied to the model by warn-mode correspondence. Seven genuine defects were repaired (known_findings.jsonl); one remains a KNOWN-FINDING.",
         "technique": "Lean 4 proofs of the recovery steps + tiling monitor + warn-mode correspondence",
         "design_ref": "DESIGN.md §8 C08",
+    },
+    "C09": {
+        "text": "c09_stream_step / c09_stream_end: one round of the stream loop is exactly 'command where the previous message ended, then response under that command's "
+                "code and the encrypt flag of its sessions', boundaries taken from the messages themselves, clean end only at a boundary; decodeStream_acct: byte accounting "
+                "of whole streams. Equality with per-message decodes (incl. first failing message) and 'one object per message, in order' are monitored over generated streams "
+                "of 1..n pairs covering all command codes with sessions/encryption/failed responses, and tied by correspondence.",
+        "technique": "Lean 4 proofs (loop step/termination) + stream-vs-messages differential monitor",
+        "design_ref": "DESIGN.md §8 C09",
     },
     "C10": {
         "text": "c10_lookahead: for EVERY layout and EVERY input (stronger than stated), whenever strict decoding shows an event the bytes pulled are at most one more than the "
